@@ -33,8 +33,8 @@ type scenario struct {
 	Deadline  int        `json:"ctx_deadline_ms,omitempty"`
 	Timeout   int        `json:"timeout_ms,omitempty"` // Dialer.Timeout, 0 = none
 	DialDelay int        `json:"netdial_delay_ms,omitempty"`
-	DialFail  bool       `json:"netdial_fails,omitempty"` // NetDial reports "connection refused" after its delay
-	Wrap      string     `json:"wrap,omitempty"`          // "" | tlsclient (wss + pass-through TLSClient) | wrapconn | both | tls-default (wss, crypto/tls client)
+	DialFail  bool       `json:"netdial_fails,omitempty"`  // NetDial reports "connection refused" after its delay
+	Wrap      string     `json:"wrap,omitempty"`           // "" | tlsclient (wss + pass-through TLSClient) | wrapconn | both | tls-default (wss, crypto/tls client)
 	TLSNilCfg bool       `json:"tls_nil_config,omitempty"` // tls-default: Dialer.TLSConfig nil instead of {InsecureSkipVerify: true}
 	RBuf      int        `json:"rbuf,omitempty"`
 	WBuf      int        `json:"wbuf,omitempty"`
